@@ -160,7 +160,7 @@ def read(path):
 
 def run(ctx):
     t = ctx.tape
-    which = t.pick(["mm-dot", "model-dot", "mm-pu"], "generator")
+    which = t.pick(["mm-dot", "model-dot", "mm-pu", "model-dot-multi"], "generator")
     gtext, nrules = make_grammar(t)
     preexisting = t.chance(1, 3, "old-file-and-overwrite")
     buffered = t.chance(1, 2, "buffered-io")
@@ -171,7 +171,21 @@ def run(ctx):
     FILE_HOOK[0] = hook
     try:
         mm = metamodel_from_str(gtext, file_name="/sim/w6/lang.tx")
-        if which == "model-dot":
+        if which == "model-dot-multi":
+            # a model with a repository of imported models: the exporter writes one cluster per file
+            from ..gen import gen_world, grammar
+            import textx.scoping.providers as sp
+
+            w = gen_world(t, "/sim/w6m", nfiles=2 + t.draw(2, "nfiles"), max_refs=6, spaced_names=False)
+            w.install(SIMFS)
+            mm = metamodel_from_str(grammar())
+            mm.register_scope_providers({"*.*": sp.PlainNameImportURI()})
+            model = mm.model_from_file(w.main)
+            gen = generator_for_language_target("any", "dot")
+            args = (mm, model, outdir)
+            out = os.path.join(outdir, "f0.dot")
+            nrules = len(w.files)
+        elif which == "model-dot":
             nobj = 1 + t.draw(4, "nobjs")
             mtext = " ".join(f"r0 o{i} " + _vals(mm, 0) + " ;" for i in range(nobj))
             model = mm.model_from_str(mtext)
